@@ -307,6 +307,7 @@ def build(spec, log, asynchronous, consumer_modes=None, faults=None, wrap_fn=Non
     faults = faults or {}
     b = Built()
     counters = {}
+    ids = {}
 
     def fn(i, name):
         f = FUNCS[name]
@@ -410,6 +411,14 @@ def build(spec, log, asynchronous, consumer_modes=None, faults=None, wrap_fn=Non
         else:
             raise AssertionError(k)
         b.nodes.append(s)
+        ids[id(s)] = i
+        if record and k != "entry":
+            # observe arrivals exactly (instance-level wrapper; the class is untouched)
+            def upd(x, who=None, metadata=None, _o=s.update, _i=i):
+                md = list(metadata) if isinstance(metadata, list) else metadata
+                log.add("arr", _i, ids.get(id(who)), x, md, log.now())
+                return _o(x, who=who, metadata=metadata)
+            s.update = upd
         if record and k != "sink":
             b.recs.append(Rec(s, log, i))
     if spec.get("fb"):
